@@ -88,6 +88,9 @@ struct Cx<'tcx> {
     env: TypingEnv<'tcx>,
     ws: Vec<String>,
     adts: std::cell::RefCell<BTreeMap<String, String>>,
+    /// function items used as VALUES (passed as `fn` pointers / generic callables): their bodies are dumped too, so that an
+    /// indirect call can be resolved to its target by the analysis
+    pending: std::cell::RefCell<Vec<Instance<'tcx>>>,
 }
 
 impl<'tcx> Cx<'tcx> {
@@ -249,6 +252,13 @@ impl<'tcx> Cx<'tcx> {
                 }
                 if let ty::FnDef(d, a) = ty.kind() {
                     let _ = write!(extra, ",\"fn\":{}", esc(&self.tcx.def_path_str_with_args(*d, a)));
+                    if let Ok(Some(fi)) = Instance::try_resolve(self.tcx, self.env, *d, a) {
+                        let fk = self.inst_key(fi);
+                        if self.should_walk(fi, &fk) {
+                            let _ = write!(extra, ",\"fnkey\":{}", esc(&fk));
+                            self.pending.borrow_mut().push(fi);
+                        }
+                    }
                 }
                 let mut val = format!("{}", cst);
                 if let Ok(v) = cst.eval(self.tcx, self.env, rustc_span::DUMMY_SP) {
@@ -548,11 +558,12 @@ impl<'tcx> Cx<'tcx> {
                     } else {
                         callee = esc(&format!("INDIRECT {}", fty));
                     }
+                    let funcop = if callee.contains("INDIRECT ") { self.operand(i, body, func) } else { "null".to_string() };
                     let a: Vec<String> = args.iter().map(|x| self.operand(i, body, &x.node)).collect();
                     let aty: Vec<String> = args.iter().map(|x| esc(&self.mono(i, x.node.ty(body, self.tcx)).to_string())).collect();
                     let _ = write!(
                         s,
-                        "{{\"t\":\"call\",\"callee\":{},\"cdef\":{},\"leaf\":{},\"crate\":{},\"closure_call\":{},\"self_adt\":{},\"closures\":[{}],\"args\":[{}],\"argtys\":[{}],\"dest\":{},\"to\":{},\"at\":{}}}",
+                        "{{\"t\":\"call\",\"callee\":{},\"cdef\":{},\"leaf\":{},\"crate\":{},\"closure_call\":{},\"self_adt\":{},\"closures\":[{}],\"args\":[{}],\"argtys\":[{}],\"dest\":{},\"to\":{},\"at\":{},\"func\":{}}}",
                         callee,
                         esc(&cdef),
                         leaf,
@@ -564,7 +575,8 @@ impl<'tcx> Cx<'tcx> {
                         aty.join(","),
                         self.place(i, body, destination),
                         target.map(|t| t.as_usize() as i64).unwrap_or(-1),
-                        at
+                        at,
+                        funcop
                     );
                 }
                 other => {
@@ -591,7 +603,7 @@ impl rustc_driver::Callbacks for Cb {
         if pkg != krate {
             return Compilation::Continue;
         }
-        let cx = Cx { tcx, env: TypingEnv::fully_monomorphized(), ws: ws_crates(), adts: Default::default() };
+        let cx = Cx { tcx, env: TypingEnv::fully_monomorphized(), ws: ws_crates(), adts: Default::default(), pending: Default::default() };
         let mut roots: Vec<(String, DefId)> = vec![];
         for ldid in tcx.hir_body_owners() {
             let did = ldid.to_def_id();
@@ -644,6 +656,9 @@ impl rustc_driver::Callbacks for Cb {
             js.push_str("]}");
             done.insert(key, js);
             for n in newq {
+                q.push_back(n);
+            }
+            for n in cx.pending.borrow_mut().drain(..) {
                 q.push_back(n);
             }
         }
